@@ -510,3 +510,20 @@ Proof.
     destruct (Nat.min_spec timeout c) as [[_ ->]|[_ ->]]; auto.
   - repeat split; [apply le_n|discriminate|auto].
 Qed.
+
+(** the receiver reads back the length the sender wrote, for every size below 2^24
+    (the query of a raw Request of any size reaches the server decodable, and so does
+    its answer on the way back) *)
+Theorem len_prefix_roundtrip (n : N) (r : list N) :
+  (n < 16777216)%N -> dec_len (enc_len n ++ r) = Some (n, r).
+Proof.
+  intros Hn. unfold enc_len. destruct (N.ltb_spec n 254) as [Hlt|Hge]; cbn [app dec_len].
+  - destruct (N.eqb_spec n 255) as [->|_]; [lia|].
+    destruct (N.ltb_spec n 254); [reflexivity|lia].
+  - change (254 =? 255)%N with false. change (254 <? 254)%N with false. cbn iota. f_equal. f_equal.
+    pose proof (N.div_mod n 256 ltac:(lia)) as H1.
+    pose proof (N.div_mod (n / 256) 256 ltac:(lia)) as H2.
+    assert (H3 : (n / 65536 = n / 256 / 256)%N) by (rewrite N.div_div by lia; reflexivity).
+    assert (H4 : (n / 65536 < 256)%N) by (apply N.div_lt_upper_bound; lia).
+    rewrite (N.mod_small (n / 65536) 256 H4). lia.
+Qed.
